@@ -8,6 +8,7 @@
 mod rng;
 mod sx;
 mod c02;
+mod c06;
 mod c07;
 mod c08;
 mod c09;
@@ -50,6 +51,7 @@ fn prop(id: &str) -> Prop {
         "C02" => Prop { gen: c02::gen, run: c02::run },
         "C03" => Prop { gen: c02::gen_c03, run: c02::run },
         "C19" => Prop { gen: c19::gen, run: c19::run },
+        "C06" => Prop { gen: c06::gen, run: c06::run },
         "C13" => Prop { gen: c13::gen, run: c13::run },
         _ => { eprintln!("unknown property {}", id); std::process::exit(2) }
     }
@@ -61,13 +63,14 @@ pub fn run_in_child(prop: &str, case: &Sx, timeout_s: u64) -> (Sx, String) {
     use std::process::{Command, Stdio};
     let exe = std::env::current_exe().unwrap();
     let mut child = Command::new(exe).args(["one", prop, &case.show()]).stdout(Stdio::piped()).stderr(Stdio::null()).spawn().unwrap();
+    // drain the pipe concurrently: a large observation would otherwise fill the pipe and block the child
+    let mut so = child.stdout.take().unwrap();
+    let reader = std::thread::spawn(move || { use std::io::Read; let mut out = String::new(); let _ = so.read_to_string(&mut out); out });
     let start = std::time::Instant::now();
     loop {
         match child.try_wait().unwrap() {
             Some(status) => {
-                let mut out = String::new();
-                use std::io::Read;
-                child.stdout.take().unwrap().read_to_string(&mut out).unwrap();
+                let out = reader.join().unwrap();
                 let mut lines = out.lines();
                 if !status.success() {
                     panic!("child exited with {:?}: {}", status.code(), out.lines().last().unwrap_or(""));
@@ -77,7 +80,7 @@ pub fn run_in_child(prop: &str, case: &Sx, timeout_s: u64) -> (Sx, String) {
             }
             None => {
                 if start.elapsed().as_secs() > timeout_s { let _ = child.kill(); let _ = child.wait(); panic!("hang: no return within {} s", timeout_s); }
-                std::thread::sleep(std::time::Duration::from_millis(2));
+                std::thread::sleep(std::time::Duration::from_millis(1));
             }
         }
     }
@@ -85,6 +88,7 @@ pub fn run_in_child(prop: &str, case: &Sx, timeout_s: u64) -> (Sx, String) {
 
 fn run_one_direct(prop: &str, case: &Sx) -> (Sx, String) {
     match prop {
+        "C06" => c06::run_direct(case),
         "C07" => c07::run_loop_direct(case),
         _ => panic!("no direct runner for {}", prop),
     }
